@@ -9,7 +9,8 @@
      pick     : which \in {"min","max"}, ps, max, res, nf = <<bool for q = 1..max>>  PickUpMin/MaxNonFatalQuantity
      suit     : ps, q, limits, res = <<bool per limit>>, nf                       IsSuitableConfig
      picksuit : which, ps, max, limit, res, suit = <<bool for q = 1..max>>          PickUpMin/MaxSuitableQuantity
-     new      : ps, q, nf, res \in {"ok","toosmall","bad",...}, share = pairs      v2 priority.New *)
+     new      : ps, q, nf, res \in {"ok","toosmall","bad",...}, share = pairs      v2 priority.New
+     newfault : ps, q, kind, total (what the faulty divider added at creation), res       v2 priority.New with a faulty divider *)
 EXTENDS Dividers, SequencesExt, Json, TLC
 Calls == ndJsonDeserialize("utils_calls.ndjson")
 VARIABLE i
@@ -45,4 +46,6 @@ C18_new == C.k = "new" => (C.nf => C.res = "ok")
 ShareFilled == LET sh == ToFn(C.share) IN \A p \in SeqRange(C.ps) : Get(sh, p) >= 1
 C15_new == C.k = "new" => /\ (C.res = "ok" <=> (C.q > 0 /\ ShareFilled))
                           /\ (C.q > 0 /\ ~ShareFilled => C.res = "toosmall")
+\* C15: a divider that, at creation, returns a non-zero added total different from the dividend makes New return ErrDividerBad
+C15_newfault == C.k = "newfault" => ((C.total # 0 /\ C.total # C.q) => C.res = "bad")
 =============================================================================
